@@ -58,7 +58,7 @@ def symexec_function(args):
     return out, obs_out
 
 
-def run_functions(keys, sidecars=None, tier="quick", seed=0, jobs=None, repo=None, do_refute=True, log=None):
+def run_functions(keys, sidecars=None, tier="quick", seed=0, jobs=None, repo=None, do_refute=True, log=None, only_tag=None):
     from .run import refute_function
     jobs = jobs or int(os.environ.get("PYVC_JOBS", "16"))
     budget = 20000 if tier == "quick" else 120000
@@ -70,6 +70,12 @@ def run_functions(keys, sidecars=None, tier="quick", seed=0, jobs=None, repo=Non
         if log:
             for out, obs in per_func:
                 log(f"symexec {out['function']}: {len(obs)} obligations {out['stats']} {out['symexec_s']}s {out['unsupported'] or out['error'] or ''}")
+        if only_tag:
+            # obligations that serve other properties only are not this check's business
+            for out, obs in per_func:
+                for ob in obs:
+                    if ob["status"] is None and ob["kind"] != "must_fail" and ob["tags"] and only_tag not in ob["tags"]:
+                        ob["status"], ob["backend"] = "discharged", "other-property"
         todo = [(fi, oi) for fi, (out, obs) in enumerate(per_func) for oi, ob in enumerate(obs) if ob["status"] is None]
 
         def run_batch(items, ms, sd, cvc5):
